@@ -359,9 +359,34 @@ pub fn random_parametric(rng: &mut Rng) -> Cfg {
     let lits: Vec<&[u8]> = vec![b"a", b"b", b"c", b"d", b"e"];
     let terms: Vec<Term> = lits[..k].iter().map(|l| Term::Lit(l.to_vec())).collect();
     let named = vec![false; k];
-    let kind = rng.below(5);
+    let kind = rng.below(7);
     let mut alts = vec![];
     let mut tags = vec!["parametric".to_string()];
+    if kind >= 5 {
+        // single-alternative rules that carry their own %if guard and are referenced once with the
+        // neutral parameter `_` (candidates for inlining by the optimiser)
+        let lo = rng.below(3) as u64;
+        let hi = lo + 1 + rng.below(4) as u64;
+        tags.push("guarded_single_rule".into());
+        let fin_body = if kind == 5 { E::Seq(vec![E::T(1 % k)]) } else { E::Seq(vec![E::T(1 % k), E::NP(3, PExpr::Same)]) };
+        let mut rules = vec![
+            Rule { name: "start".into(), parametric: false, alts: vec![(E::NP(1, PExpr::Const(0)), PCond::True)] },
+            Rule {
+                name: "cnt".into(),
+                parametric: true,
+                alts: vec![(E::Seq(vec![E::T(0), E::NP(1, PExpr::Incr(0, 8))]), PCond::Lt(0, 8, hi)), (E::NP(2, PExpr::Same), PCond::True)],
+            },
+            Rule { name: "fin".into(), parametric: true, alts: vec![(fin_body, PCond::Ge(0, 8, lo))] },
+        ];
+        if kind == 6 {
+            // a second guarded single-rule symbol behind the first one
+            // mostly a guard that holds whenever `fin` was entered; sometimes one that can fail there
+            // (then some reachable (symbol, value) pairs are unproductive: tagged class)
+            let c = if rng.chance(3, 4) { PCond::Ge(0, 8, lo) } else { PCond::Lt(0, 8, hi.saturating_sub(1).max(1)) };
+            rules.push(Rule { name: "tail".into(), parametric: true, alts: vec![(E::Seq(vec![E::T(0)]), c)] });
+        }
+        return Cfg { terms, named, rules, tags };
+    }
     let start_alts;
     match kind {
         0 => {
